@@ -152,7 +152,7 @@ def general_int_xpath1(a0: int, a1: int, n: int, b0: int, b1: int, m: int) -> bo
     return all(_gen(k, A, Bv, TG1) == any(f(x, y) for x in A for y in Bv) for k, f in OPS.items())
 
 
-@ob(budget=260, bound='anyURI vs string / anyURI, ASCII letters, length <= 2', funcs=['elementpath/datatypes/uri.py', O2])
+@ob(budget=120, kind='hunt', bound='(not exhausted within 260 s: bug-hunting) anyURI vs string / anyURI, ASCII letters, length <= 2', funcs=['elementpath/datatypes/uri.py', O2])
 def value_anyuri(a: str, b: str) -> bool:
     """
     pre: len(a) <= 2 and len(b) <= 2 and all('A' <= c <= 'z' and c.isalpha() for c in a + b)
@@ -456,7 +456,7 @@ def timezone_offsets_in_comparisons(i: int, j: int) -> bool:
 TV_DTY = {k: P31.parse('xs:dateTime($a) %s xs:dateTime($b)' % k) for k in OPS}
 
 
-@ob(budget=200, bound='a = 2000-12-31T23:00:00 and b = 2001-01-01T01:00:00 (or the reverse) with two timezone designators from the table of 8 (indices chosen '
+@ob(budget=450, bound='a = 2000-12-31T23:00:00 and b = 2001-01-01T01:00:00 (or the reverse) with two timezone designators from the table of 8 (indices chosen '
                       'by the solver): the six value comparisons order the values as instants although the local years differ',
     funcs=['elementpath/datatypes/datetime.py:AbstractDateTime._compare', 'elementpath/datatypes/datetime.py:AbstractDateTime.todelta'])
 def year_boundary_comparisons(i: int, j: int, swap: bool) -> bool:
